@@ -454,7 +454,11 @@ def finish(mod, tier, seed, st, t0):
     if nrep and not confirmed and not flaky:
         print("HARNESS-ERROR: %d failing transitions were seen in long-lived workers but none reproduces in a fresh interpreter (alone or after a recent history)" % nrep)
         return 2
-    if flaky:
+    if flaky and confirmed:
+        # reproducible violations exist: they are the verdict; what a polluted long-lived worker saw besides is noted
+        for v, oks in flaky[:5]:
+            print("note: candidate seen in a worker but not reproducible on its own: sig=%s replays=%r" % (v["sig"], oks))
+    elif flaky:
         for v, oks in flaky[:5]:
             print("HARNESS-ERROR: non-reproducible candidate sig=%s replays=%r" % (v["sig"], oks))
         return 2
